@@ -50,12 +50,15 @@ class C19(Check):
         from resonaate.parallel.estimate_update import EstUpdateRegistration
 
         def before_sub(self, *a, **k):
-            probes.rec("update_obs", target=self._registrant.simulation_id, obs=[sched.obs_key(o) for o in self._observations])  # noqa: SLF001
+            # with the position the observation says it was taken from (what the filter predicts the measurement from)
+            probes.rec("update_obs", target=self._registrant.simulation_id,  # noqa: SLF001
+                       obs=[sched.obs_key(o) + tuple(float(v).hex() for v in np.asarray(o.sensor_eci, dtype=float)[:3]) for o in self._observations])  # noqa: SLF001
 
         wrap_method(EstUpdateRegistration, "generateSubmission", before=before_sub)
 
     def gen(self, rng: random.Random, tier: str, index: int) -> dict:
-        cfg = gen.network_case(rng, nsteps=rng.randrange(2, 6), n_sensors=rng.randrange(1, 4), n_targets=rng.randrange(1, 4), model="two_body",
+        cfg = gen.network_case(rng, nsteps=rng.randrange(2, 6) if rng.random() < 0.85 else rng.randrange(4, 9), step=None if rng.random() < 0.85 else rng.choice([2, 3, 5, 8]),
+                               n_sensors=rng.randrange(1, 4), n_targets=rng.randrange(1, 4), model="two_body",
                                two_engines_p=0.3, space_sensor_p=0.25, geo_p=0.8, placed_p=0.95, out_mult=1, kinds=("radar", "adv_radar", "optical"),
                                decision=rng.choice(["MunkresDecision", "MyopicNaiveGreedyDecision", "AllVisibleDecision"]))
         S, step, out, ncfg = time_info({"config": cfg})
@@ -81,6 +84,9 @@ class C19(Check):
             muts.append({"op": "dup", "agent": rng.choice(imported), "k": rng.randrange(1, ncfg + 1)})
         if rng.random() < 0.3:
             muts.append({"op": "shuffle", "how": rng.choice(["reverse", "interleave"])})
+        if sids and rng.random() < 0.15:
+            # the importer's ephemeris of a sensor lies a few km from where its stored observations were taken: the stored observation stays what it is
+            muts.append({"op": "shift_sensor", "agent": rng.choice(sids), "d": [rng.uniform(-3, 3) for _ in range(3)]})
         rt_obs = rng.random() < 0.6
         if rng.random() < 0.2:
             muts.append({"op": "drop_observations"})
@@ -264,11 +270,30 @@ class C19(Check):
                         if key in seen:
                             continue
                         seen.add(key)
-                        want.setdefault(o[2], []).append((float(o[0]).hex(), o[1], o[2], sched.hx(o[3]), sched.hx(o[4]), sched.hx(o[5]), sched.hx(o[6])))
+                        want.setdefault(o[2], []).append((float(o[0]).hex(), o[1], o[2], sched.hx(o[3]), sched.hx(o[4]), sched.hx(o[5]), sched.hx(o[6]),
+                                                          float(o[7]).hex(), float(o[8]).hex(), float(o[9]).hex()))
                     for tid in tracked.get(k, ()):
                         got = sorted(upd.get((k, tid), []))
                         realtime = sorted(o for o in jobs.get(k, []) if o[2] == tid)
-                        exp = sorted(want.get(tid, []) + realtime)
+                        # imported ones are compared with the stored sensor position, realtime ones without (multiset matching)
+                        pool = list(want.get(tid, []))
+                        matched, rest = [], []
+                        for g in got:
+                            if g in pool:
+                                pool.remove(g)
+                                matched.append(g)
+                            else:
+                                rest.append(g)
+                        # an imported observation delivered with another position stays a 10-tuple and will not match; the others are realtime
+                        keep = []
+                        for g in rest:
+                            if any(g[:7] == w[:7] for w in pool):
+                                pool = [w for w in pool if w[:7] != g[:7]] + [w for w in pool if w[:7] == g[:7]][1:]
+                                keep.append(g)
+                            else:
+                                keep.append(g[:7])
+                        got = sorted(matched + keep, key=repr)
+                        exp = sorted(want.get(tid, []) + realtime, key=repr)
                         n_obs_cmp += 1
                         if got != exp:
                             viol.append({"clause": "imported-observations-not-delivered", "key": "update",
